@@ -765,6 +765,9 @@ func ruleP3(c *Ctx) *RuleResult {
 				if callee != c.A.ParseExpr && callee != c.A.ParseDotRHS && callee != c.A.ParseProjRHS {
 					continue
 				}
+				if len(call.Call.Args) < 2 {
+					continue // a right-hand-side parser that takes no power: its inner calls carry the obligation
+				}
 				ctxs := c.p3Contexts(call, ledSw, nudSw, 0)
 				for _, cx := range ctxs {
 					r.Instances++
@@ -792,6 +795,50 @@ func ruleP3(c *Ctx) *RuleResult {
 							r.ok(key, pos, fname(fn), "forwards its own binding-power parameter unchanged (decided at its call sites)")
 						} else {
 							r.undecided(key, pos, fname(fn), "binding power comes from a parameter of a function that is not a pass-through helper")
+						}
+						continue
+					}
+					// a fixed power inside the projection right-hand-side parser: it must
+					// suit every projection that uses this parser
+					if fn == c.A.ParseProjRHS && top == fn && (callee == c.A.ParseExpr || callee == c.A.ParseDotRHS) {
+						var bad, good []string
+						sites := 0
+						for _, caller := range allFuncs(c.SLib) {
+							for _, cs := range callsTo(caller, fn) {
+								sites++
+								built := c.consumerNodeTypes(cs, nil)
+								if len(built) == 0 {
+									if syn := caller.Syntax(); syn != nil {
+										built = c.nodeTypesBuiltIn(syn.Pos(), syn.End())
+									}
+								}
+								var w map[int64]bool
+								kind := ""
+								switch {
+								case built["ASTFilterProjection"] && !built["ASTProjection"] && !built["ASTValueProjection"]:
+									w, kind = filterAbsorb, "filter projection"
+								case built["ASTProjection"] || built["ASTValueProjection"]:
+									w, kind = projAbsorb, "list/slice/flatten/value projection"
+								default:
+									bad = append(bad, "cannot tell which projection the call at "+c.pos(cs.Pos())+" belongs to")
+									continue
+								}
+								for _, x := range v.vals {
+									if sameSet(absorbed(x), w) {
+										good = append(good, fmt.Sprintf("%s at %s: rbp=%d absorbs %s", kind, c.pos(cs.Pos()), x, tokSetStr(c, w)))
+									} else {
+										bad = append(bad, fmt.Sprintf("%s at %s: rbp=%d absorbs %s, wanted %s", kind, c.pos(cs.Pos()), x, tokSetStr(c, absorbed(x)), tokSetStr(c, w)))
+									}
+								}
+							}
+						}
+						switch {
+						case sites == 0:
+							r.undecided(key, pos, fname(fn), "the projection right-hand-side parser is not called")
+						case len(bad) > 0:
+							r.viol(key, pos, fname(fn), "one fixed power for every projection's right-hand side: "+strings.Join(bad, "; "))
+						default:
+							r.ok(key, pos, fname(fn), "fixed power suits every projection that uses this parser: "+strings.Join(good, "; "))
 						}
 						continue
 					}
@@ -900,6 +947,7 @@ func ruleP4(c *Ctx) *RuleResult {
 	fn := c.A.ParseProjRHS
 	var cmp *ssa.BinOp
 	var thr int64
+	var thrParam *ssa.Parameter
 	n := 0
 	for _, b := range fn.Blocks {
 		for _, in := range b.Instrs {
@@ -912,6 +960,17 @@ func ruleP4(c *Ctx) *RuleResult {
 				continue
 			}
 			k, ok := constInt(bo.Y)
+			if !ok {
+				// the power of a fixed token
+				if v := c.bpEval(bo.Y, nil, bp); v.ok && v.param == nil && len(v.vals) == 1 {
+					k, ok = v.vals[0], true
+				}
+			}
+			if par, isPar := bo.Y.(*ssa.Parameter); !ok && isPar && isPlainInt(par.Type()) {
+				// the threshold is the caller's binding power: one threshold per call site
+				thrParam = par
+				ok = true
+			}
 			if !ok {
 				continue
 			}
@@ -926,6 +985,70 @@ func ruleP4(c *Ctx) *RuleResult {
 		lost("parseProjectionRHS: expected one comparison of power(current) with a constant, found %d", n)
 	}
 	pos := c.pos(cmp.Pos())
+	if thrParam != nil {
+		// decide the rule for every value the parameter takes at a call site
+		idx := -1
+		for i, q := range fn.Params {
+			if q == thrParam {
+				idx = i
+			}
+		}
+		seen := map[int64]bool{}
+		var thrs []int64
+		for _, caller := range allFuncs(c.SLib) {
+			for _, cs := range callsTo(caller, fn) {
+				if idx < 0 || idx >= len(cs.Call.Args) {
+					continue
+				}
+				v := c.bpEval(cs.Call.Args[idx], nil, bp)
+				if !v.ok || v.param != nil {
+					r.Instances++
+					r.undecided("threshold-site|"+fname(caller), c.pos(cs.Pos()), fname(caller), "the threshold handed to the projection right-hand side is not a constant power here")
+					continue
+				}
+				for _, x := range v.vals {
+					if !seen[x] {
+						seen[x] = true
+						thrs = append(thrs, x)
+					}
+				}
+			}
+		}
+		sort.Slice(thrs, func(i, j int) bool { return thrs[i] < thrs[j] })
+		if cmp.Op != token.LSS && cmp.Op != token.LEQ {
+			r.undecided("threshold-op", pos, fname(fn), "comparison is neither < nor <=")
+			return r
+		}
+		for _, th := range thrs {
+			stops := func(p int64) bool {
+				if cmp.Op == token.LSS {
+					return p < th
+				}
+				return p <= th
+			}
+			for _, t := range []string{"tEOF", "tRbracket", "tRparen", "tComma", "tRbrace", "tPipe", "tOr", "tAnd", "tEQ", "tNE", "tLT", "tLTE", "tGT", "tGTE", "tFlatten"} {
+				r.Instances++
+				pw := bp.of(c.tok(t))
+				key := fmt.Sprintf("stops|%s|thr=%d", t, th)
+				if stops(pw) {
+					r.ok(key, pos, fname(fn), fmt.Sprintf("power %d %s %d: ends the projection", pw, cmp.Op, th))
+				} else {
+					r.viol(key, pos, fname(fn), fmt.Sprintf("token %s (power %d) does not end a projection when the threshold is the caller's power %d (%s): the projection would not stop where the specification says", t, pw, th, cmp.Op))
+				}
+			}
+			for _, t := range []string{"tDot", "tLbracket", "tFilter"} {
+				r.Instances++
+				pw := bp.of(c.tok(t))
+				key := fmt.Sprintf("continues|%s|thr=%d", t, th)
+				if !stops(pw) {
+					r.ok(key, pos, fname(fn), fmt.Sprintf("power %d: continues the projection", pw))
+				} else {
+					r.viol(key, pos, fname(fn), fmt.Sprintf("token %s (power %d) ends the projection when the threshold is the caller's power %d (%s): the right-hand side would be dropped", t, pw, th, cmp.Op))
+				}
+			}
+		}
+		return r
+	}
 	stops := func(p int64) bool {
 		switch cmp.Op {
 		case token.LSS:
